@@ -2,5 +2,6 @@
 EXTENDS Results, Json
 ASSUME PrintT(<<"NAMES", ToJson([S \in SUBSET AllFlags |-> [v |-> Value(S), name |-> Name(S)]])>>)
 Emit == PrintT(<<"CASE", ToJson([traj |-> [i \in 1..Len(traj) |-> Value(traj[i])], extra |-> extra, zeros |-> Zeros(traj),
-                                 firstU |-> FirstWith(traj, "U"), firstD |-> FirstWith(traj, "D"), firstM |-> FirstWith(traj, "M")])>>)
+                                 firstU |-> FirstWith(traj, "U"), firstD |-> FirstWith(traj, "D"), firstM |-> FirstWith(traj, "M"),
+                                 vel |-> Vel(traj), firstBelow |-> [q \in 1..6 |-> FirstBelow(traj, q - 1)]])>>)
 =============================================================================
